@@ -51,11 +51,17 @@ class Addr:
                     gmtexpires = args[3]
 
         self.name = name                # "www.example.com"
-        self.ip = maybe_ip_addr(ip)     # IPV4Address instance, or string
+        newip = maybe_ip_addr(ip)       # IPV4Address instance, or string
 
-        if self.ip == '<error>':
+        if newip == '<error>':
             self._expire()
             return
+
+        if self.ip is not None and newip != self.ip:
+            # the map is keyed by address as well; follow the change
+            self._forget_address()
+            self.map.addr[ip] = self
+        self.ip = newip
 
         fmt = "%Y-%m-%d %H:%M:%S"
 
@@ -89,7 +95,17 @@ class Addr:
         callback done via callLater
         """
         del self.map.addr[self.name]
+        self._forget_address()
         self.map.notify("addrmap_expired", *[self.name], **{})
+
+    def _forget_address(self):
+        """
+        drop the by-address key of this mapping, unless another name
+        has been mapped to the same address in the meantime
+        """
+        key = str(self.ip)
+        if self.map.addr.get(key, None) is self:
+            del self.map.addr[key]
 
 
 class AddrMap(object):
